@@ -119,7 +119,7 @@ func udpRun(c *core.Ctx, k udpCase, prop string) {
 		c.Violate(prop+"/setup", "valid configuration rejected or endpoints failed to start: "+o.setup.Error(), k)
 		return
 	}
-	if o.tr.Stalled {
+	if o.tr.Stalled && prop == "C02" {
 		// timing-dependent verdict: must reproduce in 2 of 3 runs of the same case
 		again := 0
 		for i := 0; i < 2; i++ {
